@@ -157,8 +157,8 @@ pub fn run(ctx: &Ctx) -> Report {
          its disclosed type — must be Checked; non-trivial = distinct (operator, former, position, text class)",
     );
     let cfg = ctx.tier.pick(Cfg::quick(), Cfg::thorough());
-    let cases = ctx.tier.pick(1_200, 40_000);
-    let mutants = ctx.tier.pick(10, 16);
+    let cases = ctx.tier.pick(2_000, 40_000);
+    let mutants = ctx.tier.pick(14, 20);
     let r = run_tapes(ctx, "programs-and-mutants", cases, 700, |tape, stats| check_case(ctx, tape, &cfg, mutants, stats));
     report.absorb(r);
     report.assume("classification is by construction, not by a second type checker: only edits whose verdict follows from the recorded derivation are generated; programs outside the generated core (inference-heavy code, packages with named fields) are not classified");
